@@ -100,6 +100,13 @@ package main
 //@   trusted
 //@   ensures len(ipsA) == old(len(ipsA)) && len(ipsB) == old(len(ipsB))
 //@   modifies elems(ipsA), elems(ipsB)
+// DualCluster: the Service's cluster IPs are a dual-stack pair (what ipfamily.ForService reports as DualStack)
+//@ pred DualCluster(svc *v1.Service) := len(svc.Spec.ClusterIPs) == 2 && ipfamily.parseIP(svc.Spec.ClusterIPs[0]) != nil && ipfamily.parseIP(svc.Spec.ClusterIPs[1]) != nil
+//@     && net.is4(ipfamily.parseIP(svc.Spec.ClusterIPs[0])) != net.is4(ipfamily.parseIP(svc.Spec.ClusterIPs[1]))
+//@ func hasDualStackClusterIPs
+//@   requires svc != nil
+//@   ensures result == DualCluster(svc)
+//@   modifies fresh []string, fresh []interface{}
 //@ func serviceFamilyChanged
 //@   ensures result == (lbIPsIPFamily == ipfamily.Unknown || (lbIPsIPFamily != clusterIPsIPFamily && !(clusterIPsIPFamily == ipfamily.DualStack && familyPolicy == v1.IPFamilyPolicyPreferDualStack)))
 //@   modifies nothing
@@ -133,6 +140,9 @@ package main
 //@   assert after Assign#1: [rec1] ret == nil ==> c.ips.allocated[key] != nil && sameSlice(c.ips.allocated[key].ips, lbIPs)
 //@   assert before isEqualIPs#1: [rec2] len(lbIPs) != 0 ==> c.ips.allocated[key] != nil && sameSlice(c.ips.allocated[key].ips, lbIPs)
 //@   assert after isEqualIPs#1: [rec3] len(lbIPs) != 0 ==> c.ips.allocated[key] != nil && sameSlice(c.ips.allocated[key].ips, lbIPs)
+// what is written must survive the next re-sync (C03): the second address of a PreferDualStack Service is only requested
+// when the pair will not be taken for a family change next time, i.e. when the cluster IPs are a dual-stack pair
+//@   assert before AllocateFromPoolForAdditionalFamily#1: [pairWillBeKept] DualCluster(svc)
 //@   assert before AllocateFromPoolForAdditionalFamily#1: [rec4] c.ips.allocated[key] != nil && sameSlice(c.ips.allocated[key].ips, lbIPs)
 //@   assert after AllocateFromPoolForAdditionalFamily#1: [rec5] ret1 == nil ==> c.ips.allocated[key] != nil && len(c.ips.allocated[key].ips) == 2 && sameSlice(c.ips.allocated[key].ips[0], lbIPs[0]) && sameSlice(c.ips.allocated[key].ips[1], ret0)
 //@   assert after AllocateFromPoolForAdditionalFamily#1: [rec6] ret1 != nil ==> c.ips.allocated[key] != nil && sameSlice(c.ips.allocated[key].ips, lbIPs)
